@@ -39,6 +39,16 @@ def check_c10(tier, seed):
     r2 = tlc_tables(1, wd, long_texts, "long")
     behaviours = r1.records + r2.records
     items = [{"id": i, "kind": "pos", "text": b["text"], "to": b["to"], "from": b["from"]} for i, b in enumerate(behaviours)]
+    # one LineIndex shared by 8 threads (the tasks of a revision share the memoised one): ten of the long texts, and very long lines
+    # whose single-threaded answers are the comparison (no table from the reference needed: the same code, one thread)
+    for it in items[-10:]:
+        it["concurrent"] = True
+    nconc = 10
+    for k in range(6):
+        cls = rng.choices(["a", "s", "b2", "b3", "b4", "LF"], weights=[30, 8, 2, 1, 1, 0 if k < 4 else 1], k=1500)
+        items.append({"id": len(items), "kind": "pos", "text": cls, "to": [], "from": [], "concurrent": True})
+        behaviours.append({"text": cls, "to": [], "from": []})
+        nconc += 1
     log("C10 %s: %d texts (%d exhaustive up to length %d, %d long)" % (tier, len(items), len(r1.records), maxlen, len(r2.records)))
     recs, _ = common.run_harness(items, wd, "pos", timeout_ms=20000)
     entries = 0
@@ -60,6 +70,8 @@ def check_c10(tier, seed):
             if list(exp) != list(got[:3]) and bad is None:
                 cls = "panic" if got[2] == "panic" else "offset"
                 bad = ("C10 from_proto %s-differs text-has=%s" % (cls, features(b["text"])), {"position": exp[:2], "expected": exp[2], "got": got[2:]})
+        if rec.get("races") and bad is None:
+            bad = ("C10 to_proto differs-when-the-line-index-is-shared-by-threads text-has=%s" % features(b["text"]), {"mismatches": rec["races"]})
         for rr in rec.get("ranges", []):
             entries += 1
             if bad is None:
